@@ -146,11 +146,25 @@ class Prop:
                    'AS_PATH attribute bytes are a sequence of well-formed segments (enforced by the UPDATE parser); malformed ones are compared with the model (panic) but not judged']
 
     # ---- rendering
-    def case_to_val(self, c): return [op_to_val(o) for o in c['ops']]
-    def case_to_coq(self, c): return '%s %s' % (MODEL_ENTRY, clist([op_to_coq(o) for o in c['ops']]))
+    @staticmethod
+    def api_ops(c):
+        """an API case as a table history: the VRPs (one cache), then one validate per route"""
+        return [('ins', 0, n, mx, a) for n, mx, a in c['vrps']] + [('val', n, la, at) for n, la, at in c['routes']]
+    def case_to_val(self, c):
+        if c.get('kind') == 'api':
+            return [[[net_to_val(n), mx, a] for n, mx, a in c['vrps']],
+                    [[net_to_val(n), la, [[cd, list(b)] for cd, b in at]] for n, la, at in c['routes']]]
+        return [op_to_val(o) for o in c['ops']]
+    def case_to_coq(self, c):
+        ops = self.api_ops(c) if c.get('kind') == 'api' else c['ops']
+        return '%s %s' % (MODEL_ENTRY, clist([op_to_coq(o) for o in ops]))
     def case_to_json(self, c): return json.loads(json.dumps(c))
     def case_from_json(self, j):
         c = dict(j)
+        if j.get('kind') == 'api':
+            c['vrps'] = [(tup(n), mx, a) for n, mx, a in j['vrps']]
+            c['routes'] = [(tup(n), la, [(cb[0], list(cb[1])) for cb in at]) for n, la, at in j['routes']]
+            return c
         ops = []
         for o in j['ops']:
             o = list(o)
@@ -464,7 +478,41 @@ class Prop:
                ('ins', 0, (4, (10, 1, 0, 0), 32), 32, 65001), ('val', (4, (10, 1, 0, 0), 32), 65000, SQ(65001)), ('iter',),
                ('rem', 0, (4, (10, 1, 0, 0), 255), 255, 65001), ('iter',)]
         add('vrp_length_beyond_width', ops)
+        # (k) the API annotation (TableManager::collect_paths): ladders, AS_PATH shapes, the other family
+        def api(cls, vrps, routes): cases.append({'kind': 'api', 'cls': cls, 'vrps': vrps, 'routes': routes})
+        for fam in (4, 6):
+            W = WIDTH[fam]; base = ('10' * 64)[:W]
+            vr = [(mk_net(fam, base[:l]), min(255, l + 2), [65001, 65002, 0][l % 3]) for l in range(0, W + 1, 1 if fam == 4 else 7)]
+            api('api_ladder_ipv%d' % fam, vr, [(mk_net(fam, base[:l]), 65000, SQ(65009, [65001, 65002][l % 2])) for l in range(0, W + 1)])
+        api('api_aspath_shapes', [(mk_net(4, '0000101000000001'), 24, 65001), (mk_net(4, '0000101000000001'), 24, 65000)],
+            [((4, (10, 1, j, 0), 24), 65000, attrs) for j, (name, attrs) in enumerate(shapes)])
+        api('api_other_family_only', [(mk_net(4, '00001010'), 24, 65001)],
+            [((6, tuple([0x20, 1] + [0] * 14), 32), 65000, SQ(65001)), ((4, (10, 1, 0, 0), 16), 65000, SQ(65001)),
+             ((4, (11, 1, 0, 0), 16), 65000, SQ(65001))])
+        api('api_empty_table', [], [((4, (10, 1, 0, 0), 16), 65000, SQ(65001)), ((6, tuple([0] * 16), 0), 65000, [])])
         return cases
+
+    def api_random_case(self, rng):
+        fam = rng.choice([4, 4, 6]); W = WIDTH[fam]
+        base = ''.join(rng.choice('01') for _ in range(W))
+        vr = []
+        for _ in range(rng.randint(1, 6)):
+            l = rng.randint(0, W); bs = base[:l]
+            if rng.random() < 0.3 and l:
+                k = rng.randrange(l); bs = bs[:k] + ('1' if bs[k] == '0' else '0') + bs[k + 1:]
+            vr.append((mk_net(fam, bs), rng.choice([l, min(W, l + 3), W]), rng.choice(ASNS)))
+        routes, seen = [], set()
+        for _ in range(rng.randint(2, 8)):
+            l = rng.randint(0, W); bs = base[:l]
+            if rng.random() < 0.3 and l:
+                k = rng.randrange(l); bs = bs[:k] + ('1' if bs[k] == '0' else '0') + bs[k + 1:]
+            n = mk_net(fam, bs)
+            if n in seen: continue
+            seen.add(n)
+            local = rng.choice(LOCALS)
+            tag, attrs = self.attrs_for(rng, local)
+            routes.append((n, local, attrs))
+        return {'kind': 'api', 'vrps': vr, 'routes': routes}
 
     def gen_cases(self, rng, tier):
         cases = self.enumerated_cases()
@@ -497,6 +545,7 @@ class Prop:
         for _ in range(nh): cases.append(self.history_case(rng, tier))
         for _ in range(nr): cases.append(self.real_case(rng, rng.choice([4, 4, 6])))
         for _ in range(nn): cases.append(self.history_case(rng, tier, noncanon=True))
+        for _ in range(60 if tier == 'quick' else 400): cases.append(self.api_random_case(rng))
         if tier == 'quick':
             cases += self.exhaustive_cases(4, '0000101', 2, 2)           # window straddling the first octet boundary
         else:
@@ -508,16 +557,37 @@ class Prop:
 
     # ---- running
     def run_impl(self, cases, tier):
-        return rustrun.crate_bin('C12', 'hx-rpki', '', [self.case_to_val(c) for c in cases])
+        """table histories through the crate harness; API cases through the daemon hook
+        (TableManager::insert_route + collect_paths)"""
+        ia = [k for k, c in enumerate(cases) if c.get('kind') == 'api']
+        it = [k for k, c in enumerate(cases) if c.get('kind') != 'api']
+        out = [None] * len(cases)
+        if it:
+            r, err = rustrun.crate_bin('C12', 'hx-rpki', '', [self.case_to_val(cases[k]) for k in it])
+            if r is None: return None, err
+            for k, o in zip(it, r): out[k] = o
+        if ia:
+            r, err = rustrun.daemon_test('C12api', 'rpki::verif_hx::verif_rpki_api_cases', [self.case_to_val(cases[k]) for k in ia])
+            if r is None: return None, err
+            for k, o in zip(ia, r): out[k] = o
+        return out, ''
 
     def run_model(self, cases, tier):
         pre = 'From RB Require Import Base.Val Model.Rpki Model.RpkiPre.\nOpen Scope N_scope.'
-        return coqrun.eval_terms('C12', pre, [self.case_to_coq(c) for c in cases])
+        r, err = coqrun.eval_terms('C12', pre, [self.case_to_coq(c) for c in cases])
+        if r is None: return r, err
+        out = []
+        for c, o in zip(cases, r):
+            if c.get('kind') == 'api' and o != [-1]:
+                # what collect_paths shows of each validate result: state, reason and the sizes of the lists
+                o = [[[[v[0], v[1], len(v[2]), len(v[3]), len(v[4])] for v in ob[0]]] for ob in o[len(c['vrps']):]]
+            out.append(o)
+        return out, ''
 
     def canon(self, case, obs):
         """list-valued observations are compared as sorted lists (the trie's key order and the
         order inside matched/unmatched lists are not part of the property)"""
-        if obs == [-1]: return obs
+        if obs == [-1] or case.get('kind') == 'api': return obs
         out = []
         for o, ob in zip(case['ops'], obs):
             if o[0] in ('val', 'valx'):
@@ -529,6 +599,8 @@ class Prop:
     # ---- Spec oracle (property text / RFC 6811), judging the implementation's observations
     def failures(self, c, obs):
         """-> list of (op index, class tag, text)"""
+        if c.get('kind') == 'api' and obs != [-1]:
+            return self.api_failures(c, obs)
         if obs == [-1]:
             if any(o[0] == 'val' and origin_rfc6811(o[2], o[3])[0] == 'malformed' for o in c['ops']):
                 return []        # assumption: AS_PATH bytes are well-formed
@@ -581,6 +653,30 @@ class Prop:
                 fails.append((k, cls, 'op %d: unmatched_length / unmatched_asn split is wrong' % k))
         return fails
 
+    def api_failures(self, c, obs):
+        """the state shown by the API (collect_paths) for every listed route"""
+        fails = []
+        names = ['NotFound', 'Valid', 'Invalid']
+        vset = {vrp_key(n[0], n[1], n[2], mx, a, 0) for n, mx, a in c['vrps']}
+        for k, ((route, local, attrs), ob) in enumerate(zip(c['routes'], obs)):
+            if ob == []:
+                fails.append((k, 'api', 'route %d is not listed by collect_paths' % k)); continue
+            vr = [x for x in vset if x[0] == route[0]]
+            if any(not canonical((x[0], x[1], x[2])) for x in vr): continue
+            origin = origin_rfc6811(local, attrs)
+            if origin[0] == 'malformed': continue
+            st, matched, unm = validate_spec(vr, route, origin)
+            if ob[0] == []:
+                fails.append((k, 'family-empty' if not vr else 'api',
+                              'route %d (%s/%d): the API shows no validation state; RFC 6811 state is %s' % (k, '.'.join(map(str, route[1])), route[2], names[st])))
+                continue
+            v = ob[0][0]
+            if v[0] != st:
+                fails.append((k, 'api', 'route %d (%s/%d): the API shows %s, RFC 6811 requires %s' % (k, '.'.join(map(str, route[1])), route[2], names[v[0]], names[st])))
+            elif v[2] != len(matched) or v[3] + v[4] != len(unm):
+                fails.append((k, 'api', 'route %d: the API lists %d matched / %d unmatched VRPs, RFC 6811 gives %d / %d' % (k, v[2], v[3] + v[4], len(matched), len(unm))))
+        return fails
+
     KNOWN_CLASS = {'C12-3': 'family-empty'}
 
     def oracle(self, c, obs):
@@ -602,7 +698,7 @@ class Prop:
         """relation of every validated route to the VRPs installed at that point"""
         T = SpecTable()
         rel = []
-        for o in c['ops']:
+        for o in (self.api_ops(c) if c.get('kind') == 'api' else c['ops']):
             T.apply(o)
             if o[0] == 'val':
                 r = o[1]
@@ -617,6 +713,11 @@ class Prop:
         return rel
 
     def nontrivial_key(self, c, obs):
+        if c.get('kind') == 'api':
+            if obs == [-1]: return ('panic', 'api')
+            rel = self.relations(c)
+            if not any(set(t) & {'exact', 'covering', 'more_specific'} for t in rel): return None
+            return ('api', tuple(rel), tuple((ob[0][0][0] if ob and ob[0] else -1) for ob in obs))
         if obs == [-1]: return ('panic', tuple(o[0] for o in c['ops']))
         rel = self.relations(c)
         interesting = any(set(t) & {'exact', 'covering', 'more_specific'} for t in rel)
@@ -631,6 +732,11 @@ class Prop:
     def classify(self, c, obs):
         tags = ['kind_' + c.get('kind', '?')]
         if c.get('cls'): tags.append('enum_' + c['cls'])
+        if c.get('kind') == 'api':
+            tags.append('api_annotation')
+            for ob in (obs if obs != [-1] else []):
+                tags.append('api_state_%s' % ('unlisted' if ob == [] else 'none' if ob[0] == [] else ['NotFound', 'Valid', 'Invalid'][ob[0][0][0]]))
+            return sorted(set(tags))
         fams = {o[1][0] for o in c['ops'] if o[0] == 'val'}
         tags += ['val_ipv%d' % f for f in sorted(fams)]
         for t in set(x for r in self.relations(c) for x in r): tags.append('rel_' + t)
